@@ -85,3 +85,49 @@ Section Assoc.
     unfold enc_al in IH. rewrite IH. reflexivity.
   Qed.
 End Assoc.
+
+(* ---- two stable insertion sorts agree ----------------------------------------------------------------------
+   MiniPy (Interp.sort_keyed_aux): from the right, each item in front of the first one whose key is not smaller;
+   C11.Model.sort_by: from the left, each item behind the last one whose key is not greater. *)
+Section Sorts.
+  Context {A : Type} (k : A -> Z).
+
+  Fixpoint ins_r (x : A) (l : list A) : list A :=
+    match l with
+    | [] => [x]
+    | y :: t => if (k y <? k x)%Z then y :: ins_r x t else x :: y :: t
+    end.
+  Definition sort_r (l : list A) : list A := fold_right ins_r [] l.
+
+  Definition kleb (a b : A) : bool := (k a <=? k b)%Z.
+
+  Lemma ins_commute x e : forall l, insert_by kleb x (ins_r e l) = ins_r e (insert_by kleb x l).
+  Proof.
+    induction l as [|y t IH]; cbn [ins_r insert_by]; unfold kleb in *.
+    - destruct (Z.leb_spec (k e) (k x)), (Z.ltb_spec (k x) (k e)); try lia; reflexivity.
+    - destruct (Z.ltb_spec (k y) (k e)) as [H1|H1]; destruct (Z.leb_spec (k y) (k x)) as [H2|H2];
+        cbn [ins_r insert_by].
+      + destruct (Z.ltb_spec (k y) (k e)); [|lia]. destruct (Z.leb_spec (k y) (k x)); [|lia]. rewrite IH. reflexivity.
+      + destruct (Z.ltb_spec (k x) (k e)); [|lia]. destruct (Z.leb_spec (k y) (k x)); [lia|].
+        cbn [ins_r]. destruct (Z.ltb_spec (k y) (k e)); [|lia]. reflexivity.
+      + destruct (Z.leb_spec (k e) (k x)); [|lia]. destruct (Z.ltb_spec (k y) (k e)); [lia|].
+        cbn [insert_by]. destruct (Z.leb_spec (k y) (k x)); [|lia]. reflexivity.
+      + destruct (Z.leb_spec (k e) (k x)) as [H3|H3]; destruct (Z.ltb_spec (k x) (k e)) as [H4|H4]; try lia.
+        * cbn [insert_by ins_r]. destruct (Z.leb_spec (k y) (k x)); [lia|]. reflexivity.
+        * cbn [ins_r]. destruct (Z.ltb_spec (k y) (k e)); [lia|]. reflexivity.
+  Qed.
+
+  Lemma fold_ins_commute e : forall t acc,
+    fold_left (fun a x => insert_by kleb x a) t (ins_r e acc) = ins_r e (fold_left (fun a x => insert_by kleb x a) t acc).
+  Proof.
+    induction t as [|x t IH]; intros acc; [reflexivity|].
+    cbn [fold_left]. rewrite ins_commute. apply IH.
+  Qed.
+
+  Lemma sort_r_sort_by l : sort_r l = sort_by kleb l.
+  Proof.
+    unfold sort_by. induction l as [|e t IH]; [reflexivity|].
+    cbn [sort_r fold_right fold_left insert_by]. change [e] with (ins_r e []).
+    rewrite fold_ins_commute. fold (sort_r t). rewrite IH. reflexivity.
+  Qed.
+End Sorts.
